@@ -48,9 +48,10 @@ func (f FilterFlag) String() string {
 		return name
 	}
 
+	// Iterate over the bits in ascending order to get a deterministic result.
 	var list []string
-	for flag, name := range filterFlagNames {
-		if f&flag != 0 {
+	for flag := FilterFlag(1); flag != 0; flag <<= 1 {
+		if name, found := filterFlagNames[flag]; found && f&flag != 0 {
 			f ^= flag
 			list = append(list, name)
 		}
